@@ -111,7 +111,7 @@ fn ref_rejected(net: &Net, last: Option<u32>, frame: &[u8]) -> bool {
 /// Returns the number of bits of the authentic frame (for the bit-flip sweep).
 fn data_twins(front: Front, reg: Reg, flip_bit: Option<usize>, rng: &mut Prng, col: &mut Collector) -> Option<usize> {
     let seed = rng.next_u64();
-    let start_up = *rng.pick(&[0u32, 5, 0xFFFE, 0x1_FFFE]);
+    let start_up = *rng.pick(&[0u32, 5, 0xFFFE, 0x1_FFFE, 0, 5, 0xFFFF_FFFC, 0xFFFF_FFFE]);
     let start_down: Option<u32> = *rng.pick(&[None, Some(3), Some(0xFFFE), Some(70_000)]);
     // ADR counter to lose: around the ADRACKReq limit and the first back-off step
     // (in "adr mode" no downlink is accepted before the insertion, so the counter survives)
